@@ -22,6 +22,7 @@ pub fn template_profile() -> Profile {
     p.max_stmts = 8;
     p.max_depth = 2;
     p.nested_signal_assign = false;
+    p.literals_beyond_prime = true;
     // Instantiations of the Circomlib names the analysis passes look for, with every small arity
     // (the tool has no definition to check the arity against), besides templates of the same file.
     p.components = true;
@@ -49,6 +50,7 @@ pub fn function_profile() -> Profile {
     let mut p = Profile::sem(false, field::bn254());
     p.max_stmts = 8;
     p.max_depth = 2;
+    p.literals_beyond_prime = true;
     p
 }
 
